@@ -91,7 +91,7 @@ def _quad(M, x):
     acc = 0
     for i in range(len(x)):
         for j in range(len(x)):
-            if not hasattr(M[i][j], 'var') and M[i][j] == 0:
+            if not nm.is_sym(M[i][j]) and M[i][j] == 0:
                 continue
             acc = acc + x[i] * M[i][j] * x[j]
     return acc
